@@ -41,7 +41,7 @@ func c08Value(maxStr int) {
 		v = c02Lists(2, 0)
 		label = "truncated-list"
 	default:
-		sig, data, _ := zzData(sym.Choose("sig", 12))
+		sig, data, _ := zzData(sym.Choose("sig", zzNSigs))
 		v = Opaque(sig, data)
 		label = "truncated-opaque[" + sig + "]"
 	}
